@@ -12,8 +12,13 @@ probe inputs that use a name only a rejected input defined.
 Regenerated part: coq/Gen/C27_CheckerFields.v (harness/cmd/c27gen, go/ast) re-proved by C27_frame_audit.
 
 Session s-expression (the model driver's input; the corpus stores these):
-  (sess (inp stmt...) ...)   stmt: (def m i|s e) (const k e) (decl v i|s e) (asg v e) (pr e) early
-  expr: (i z) (s n) (l v) (k n) p (c m e) (add a b) (mul a b) (div a b)
+  (sess (inp stmt...) ...)   stmt: (def m i|s e) (const k e) (decl v X e) (asg v e) (pr e) early (td a X) (cls c)
+  texp X: i s (a alias) (o class)
+  expr: (i z) (s n) (l v) (k n) p (c m e) (add a b) (mul a b) (div a b) (new class)
+Alias / constant ids >= 100 are printed inside a module (id // 100): `module M1X7; typedef T2X7 = ..; end`, used as
+`M1X7::T2X7` — the model has one flat table of named types and one of constants; the module only changes WHERE the
+implementation registers them (scope push/pop, namespace declaration).  Constants initialised from other constants
+are generated but never read at run time ("dead": the compiler never defines them, in batch and REPL alike).
 """
 import json
 import os
@@ -63,7 +68,9 @@ def elk_expr(e, sid):
     if k == "l":
         return "v%s" % e[1]
     if k == "k":
-        return "K%sX%d" % (e[1], sid)
+        return const_name(e[1], sid)
+    if k == "new":
+        return "C%sX%d()" % (e[1], sid)
     if k == "c":
         return "m%sx%d(%s)" % (e[1], sid, elk_expr(e[2], sid))
     op = {"add": "+", "mul": "*", "div": "/"}[k]
@@ -73,6 +80,37 @@ def elk_expr(e, sid):
 TY = {"i": "Int", "s": "String"}
 
 
+def const_name(k, sid):
+    k = int(k)
+    if k >= 100:
+        return "M%dX%d::K%dX%d" % (k // 100, sid, k % 100, sid)
+    return "K%dX%d" % (k, sid)
+
+
+def alias_name(a, sid):
+    a = int(a)
+    if a >= 100:
+        return "M%dX%d::T%dX%d" % (a // 100, sid, a % 100, sid)
+    return "T%dX%d" % (a, sid)
+
+
+def in_module(n, sid, text):
+    n = int(n)
+    if n >= 100:
+        return "module M%dX%d\n  %s\nend" % (n // 100, sid, text)
+    return text
+
+
+def elk_texp(x, sid):
+    if isinstance(x, str):
+        return TY[x]
+    if x[0] == "a":
+        return alias_name(x[1], sid)
+    if x[0] == "o":
+        return "C%sX%d" % (x[1], sid)
+    raise ValueError(x)
+
+
 def elk_stmt(st, sid):
     if st == "early":
         return "class Zq%d < Nope%d; end" % (sid, sid)
@@ -80,9 +118,13 @@ def elk_stmt(st, sid):
     if k == "def":
         return "def m%sx%d(x: Int): %s\n  %s\nend" % (st[1], sid, TY[st[2]], elk_expr(st[3], sid))
     if k == "const":
-        return "const K%sX%d: Int = %s" % (st[1], sid, elk_expr(st[2], sid))
+        return in_module(st[1], sid, "const K%dX%d: Int = %s" % (int(st[1]) % 100, sid, elk_expr(st[2], sid)))
     if k == "decl":
-        return "var v%s: %s = %s" % (st[1], TY[st[2]], elk_expr(st[3], sid))
+        return "var v%s: %s = %s" % (st[1], elk_texp(st[2], sid), elk_expr(st[3], sid))
+    if k == "td":
+        return in_module(st[1], sid, "typedef T%dX%d = %s" % (int(st[1]) % 100, sid, elk_texp(st[2], sid)))
+    if k == "cls":
+        return "class C%sX%d; end" % (st[1], sid)
     if k == "asg":
         return "v%s = %s" % (st[1], elk_expr(st[2], sid))
     if k == "pr":
@@ -96,24 +138,47 @@ def elk_input(inp, sid):
 
 # ------------------------------------------------------------------ generator
 
+ALIAS_IDS = [0, 1, 2, 3, 4, 5, 100, 101, 102, 200, 201]     # >= 100: inside module id // 100
+CONST_IDS = [0, 1, 2, 3, 4, 5, 100, 101, 200]
+CLASS_IDS = [0, 1, 2, 3]
+NEVER = "9"                                                   # alias / class / constant id that is never defined
+
+
 class Gen:
-    """generator-side bookkeeping of what the session has defined so far (what the REPL should know)"""
+    """generator-side bookkeeping of what the session has defined so far (what the REPL should know).
+    Resolved types are 'i' | 's' | 'o<class>'; written type expressions are 'i' | 's' | ['a', alias] | ['o', class]."""
 
     def __init__(self, r):
         self.r = r
         self.meths = {}      # name -> 'i' | 's'
-        self.consts = []
-        self.locals = {}     # name -> 'i' | 's'
-        self.ghost = []      # ('l'|'k'|'c', name): names only rejected inputs defined
+        self.consts = []     # every constant (live and dead)
+        self.dead = set()    # constants initialised from constants: never read at run time
+        self.locals = {}     # name -> resolved type
+        self.aliases = {}    # alias id (str) -> resolved type
+        self.classes = []    # class ids (str)
+        self.ghost = []      # ('l'|'k'|'c'|'t'|'o', name): names only rejected inputs defined
+
+    def state(self):
+        return dict(self.meths), list(self.consts), dict(self.locals), dict(self.aliases), list(self.classes), set(self.dead)
 
     def fresh(self, used, limit=6):
         cand = [str(i) for i in range(limit) if str(i) not in used]
         return self.r.choice(cand) if cand else None
 
+    def fresh_of(self, ids, used):
+        cand = [str(i) for i in ids if str(i) not in used]
+        return self.r.choice(cand) if cand else None
+
+    def live(self, consts=None, dead=None):
+        consts = self.consts if consts is None else consts
+        dead = self.dead if dead is None else dead
+        return [k for k in consts if k not in dead]
+
     def int_expr(self, depth, in_body=False, meths=None, consts=None, locs=None):
+        """consts: the constants the expression may READ (callers pass live constants only)"""
         r = self.r
         meths = self.meths if meths is None else meths
-        consts = self.consts if consts is None else consts
+        consts = self.live() if consts is None else consts
         locs = self.locals if locs is None else locs
         leaves = [("i", str(r.choice([0, 1, 2, 3, 5, 7, 10, -1, -4, 12345678901234567890])))]
         if in_body:
@@ -146,20 +211,39 @@ class Gen:
             opts.append(["c", r.choice(sm), self.int_expr(0, in_body, meths, None, locs)])
         return r.choice(opts)
 
+    def obj_expr(self, t, locs):
+        opts = [["new", t[1:]]] + [["l", v] for v, tv in sorted(locs.items()) if tv == t]
+        return self.r.choice(opts)
+
     def expr_of(self, t, in_body=False, meths=None, consts=None, locs=None):
-        return self.int_expr(2, in_body, meths, consts, locs) if t == "i" else self.str_expr(in_body, meths, locs)
+        if t == "i":
+            return self.int_expr(2, in_body, meths, consts, locs)
+        if t == "s":
+            return self.str_expr(in_body, meths, locs)
+        return self.obj_expr(t, self.locals if locs is None else locs)
+
+    def written(self, t, aliases):
+        """a type expression that denotes the resolved type t: the type itself or one of its aliases"""
+        al = [a for a, ta in sorted(aliases.items()) if ta == t]
+        if al and self.r.chance(3, 5):
+            return ["a", self.r.choice(al)]
+        return t if t in ("i", "s") else ["o", t[1:]]
 
     def valid_stmts(self, n, allow_defs=True):
-        """n well-typed statements; returns (stmts, meths', consts', locals') — the state if accepted"""
+        """n well-typed statements; returns (stmts, state') — state' = (meths, consts, locals, aliases, classes, dead) if accepted"""
         r = self.r
-        meths, consts, locs = dict(self.meths), list(self.consts), dict(self.locals)
-        # methods of this input are hoisted: decide them first so that earlier statements may call them
+        meths, consts, locs, aliases, classes, dead = self.state()
+        # methods, classes and named types of this input are hoisted: decide them first so that earlier
+        # statements may use them
         stmts = []
         plan = []
         for _ in range(n):
-            c = r.below(12)
-            plan.append("def" if (c < 3 and allow_defs) else "const" if c < 4 else "decl" if c < 6 else "asg" if c < 8 else "pr")
+            c = r.below(17)
+            plan.append("def" if (c < 3 and allow_defs) else "const" if c < 5 else "decl" if c < 8 else "asg" if c < 10
+                        else "td" if c < 13 else "cls" if c < 14 else "pr")
         newdefs = []
+        newcls = []
+        newtd = []
         for p in plan:
             if p == "def":
                 if meths and r.chance(2, 5):
@@ -174,68 +258,137 @@ class Gen:
                         t = "i" if r.chance(4, 5) else "s"
                         meths[m] = t
                         newdefs.append((m, t))
-        di = 0
+            elif p == "cls":
+                c = r.choice([str(i) for i in CLASS_IDS])  # new class or reopening of an old one
+                newcls.append(c)
+                if c not in classes:
+                    classes.append(c)
+            elif p == "td":
+                a = self.fresh_of(ALIAS_IDS, list(aliases) + [x for x in newtd if x])
+                newtd.append(a)                          # None: no free name left -> becomes a print
+        # right-hand sides: in a random resolution order, each alias may name the types known so far, so the
+        # typedefs of one input refer to each other forwards and backwards without cycles
+        order = [a for a in newtd if a]
+        for i in range(len(order) - 1, 0, -1):
+            j = r.below(i + 1)
+            order[i], order[j] = order[j], order[i]
+        rhs = {}
+        for a in order:
+            c = r.below(10)
+            if c < 5 and aliases:
+                b = r.choice(sorted(aliases))
+                rhs[a], aliases[a] = ["a", b], aliases[b]
+            elif c < 7 and classes:
+                k = r.choice(classes)
+                rhs[a], aliases[a] = ["o", k], "o" + k
+            else:
+                t = "i" if r.chance(2, 3) else "s"
+                rhs[a], aliases[a] = t, t
+        di = ci = ti = 0
         for p in plan:
             if p == "def":
                 m, t = newdefs[di]
                 di += 1
                 # bodies call only lower-numbered methods (no recursion; these may be defined later in this
-                # very input: hoisting) and read only constants of EARLIER inputs (initialised for sure)
+                # very input: hoisting) and read only live constants of EARLIER inputs (initialised for sure)
                 lower = {x: tx for x, tx in meths.items() if int(x) < int(m)}
-                stmts.append(["def", m, t, self.expr_of(t, True, lower, list(self.consts), {})])
+                stmts.append(["def", m, t, self.expr_of(t, True, lower, self.live(), {})])
+            elif p == "cls":
+                stmts.append(["cls", newcls[ci]])
+                ci += 1
+            elif p == "td":
+                a = newtd[ti]
+                ti += 1
+                if a is None:
+                    stmts.append(["pr", self.int_expr(1, False, meths, self.live(consts, dead), locs)])
+                else:
+                    stmts.append(["td", a, rhs[a]])
             elif p == "const":
-                k = self.fresh(consts)
+                k = self.fresh_of(CONST_IDS, consts)
                 if k is None:
-                    stmts.append(["pr", self.int_expr(1, False, meths, consts, locs)])
+                    stmts.append(["pr", self.int_expr(1, False, meths, self.live(consts, dead), locs)])
                     continue
-                # constant-free initialisers only: a constant initialised from another constant is never
-                # defined at runtime in batch programs and in the REPL alike (a compiler defect outside this property)
-                init = self.int_expr(1, False, {}, [], {})
+                if consts and r.chance(1, 3):
+                    # initialised from other constants (live or dead): type-checked against the constant scopes,
+                    # never defined at run time (a compiler defect outside this property) -> never read afterwards
+                    init = ["add", ["k", r.choice(consts)], self.int_expr(1, False, {}, list(consts), {})]
+                    dead.add(k)
+                else:
+                    init = self.int_expr(1, False, {}, [], {})
                 stmts.append(["const", k, init])
                 consts.append(k)
             elif p == "decl":
                 v = self.fresh(locs)
                 if v is None:
-                    stmts.append(["pr", self.int_expr(1, False, meths, consts, locs)])
+                    stmts.append(["pr", self.int_expr(1, False, meths, self.live(consts, dead), locs)])
                     continue
-                t = "i" if r.chance(3, 4) else "s"
-                stmts.append(["decl", v, t, self.expr_of(t, False, meths, consts, locs)])
+                c = r.below(8)
+                t = "i" if c < 5 else "s" if c < 6 else ("o" + r.choice(classes)) if classes else "i"
+                stmts.append(["decl", v, self.written(t, aliases), self.expr_of(t, False, meths, self.live(consts, dead), locs)])
                 locs[v] = t
             elif p == "asg" and locs:
                 v = r.choice(sorted(locs))
-                stmts.append(["asg", v, self.expr_of(locs[v], False, meths, consts, locs)])
+                stmts.append(["asg", v, self.expr_of(locs[v], False, meths, self.live(consts, dead), locs)])
             else:
                 t = "i" if r.chance(4, 5) else "s"
-                stmts.append(["pr", self.expr_of(t, False, meths, consts, locs)])
-        return stmts, meths, consts, locs
+                stmts.append(["pr", self.expr_of(t, False, meths, self.live(consts, dead), locs)])
+        return stmts, (meths, consts, locs, aliases, classes, dead)
 
-    def commit(self, meths, consts, locs):
-        self.meths, self.consts, self.locals = meths, consts, locs
-        self.ghost = [g for g in self.ghost if not ((g[0] == "l" and g[1] in locs) or (g[0] == "k" and g[1] in consts) or (g[0] == "c" and g[1] in meths))]
+    def commit(self, st):
+        self.meths, self.consts, self.locals, self.aliases, self.classes, self.dead = st
+        real = {"l": self.locals, "k": self.consts, "c": self.meths, "t": self.aliases, "o": self.classes}
+        self.ghost = [g for g in self.ghost if g[1] not in real[g[0]]]
 
-    def remember_ghosts(self, meths, consts, locs):
-        for v in locs:
-            if v not in self.locals:
-                self.ghost.append(("l", v))
-        for k in consts:
-            if k not in self.consts:
-                self.ghost.append(("k", k))
-        for m in meths:
-            if m not in self.meths:
-                self.ghost.append(("c", m))
+    def remember_ghosts(self, st):
+        meths, consts, locs, aliases, classes, _ = st
+        for kind, new, old in (("l", locs, self.locals), ("k", consts, self.consts), ("c", meths, self.meths),
+                               ("t", aliases, self.aliases), ("o", classes, self.classes)):
+            for x in new:
+                if x not in old and (kind, x) not in self.ghost:
+                    self.ghost.append((kind, x))
 
-    def fault(self, meths, consts, locs):
+    def probe(self, kind, name):
+        """an input that can only be accepted if the rejected input that defined `name` left a trace"""
+        r = self.r
+        free_l = [str(i) for i in range(6, 9) if str(i) not in self.locals]
+        if kind == "l":
+            return [["pr", ["l", name]]]
+        if kind == "k":
+            k = self.fresh_of(CONST_IDS, self.consts + [name])
+            if k is not None and r.chance(1, 2):
+                return [["const", k, ["add", ["k", name], ["i", "1"]]]]       # constant from a ghost constant
+            return [["pr", ["k", name]]]
+        if kind == "c":
+            return [["pr", ["c", name, ["i", "1"]]]]
+        if kind == "t":
+            a = self.fresh_of(ALIAS_IDS, list(self.aliases) + [name])
+            if a is not None and r.chance(2, 3):
+                return [["td", a, ["a", name]]]                               # named type from a ghost named type
+            return [["decl", r.choice(free_l), ["a", name], ["i", "1"]]]
+        a = self.fresh_of(ALIAS_IDS, list(self.aliases))
+        if a is not None and r.chance(1, 2):
+            return [["td", a, ["o", name]]]
+        return [["decl", r.choice(free_l), ["o", name], ["new", name]]]
+
+    def fault(self, st):
         """one ill-typed statement, by kind"""
         r = self.r
-        kinds = ["undef-local", "undef-const", "undef-method", "decl-mismatch", "bad-body", "arith-mismatch"]
+        meths, consts, locs, aliases, classes, dead = st
+        kinds = ["undef-local", "undef-const", "undef-method", "decl-mismatch", "bad-body", "arith-mismatch",
+                 "undef-type", "decl-undef-type", "cyclic-typedef", "undef-class"]
         if locs:
             kinds += ["asg-mismatch", "redeclare-local"]
         if consts:
             kinds.append("redeclare-const")
         if meths:
             kinds.append("bad-override")
+        if aliases:
+            kinds += ["redeclare-typedef", "decl-alias-mismatch"]
+        if classes:
+            kinds.append("decl-obj-mismatch")
         k = r.choice(kinds)
         free_l = [str(i) for i in range(6, 9) if str(i) not in locs]
+        free_a = [str(i) for i in (6, 7, 8, 106, 207) if str(i) not in aliases]
         if k == "undef-local":
             return k, ["pr", ["l", r.choice(free_l)]]
         if k == "undef-const":
@@ -249,17 +402,37 @@ class Gen:
             return k, ["def", m if m not in meths else "7", "i", ["s", "2"]]
         if k == "arith-mismatch":
             return k, ["pr", ["add", ["i", "1"], ["s", "3"]]]
+        if k == "undef-type":
+            return k, ["td", r.choice(free_a), ["a", NEVER]]
+        if k == "decl-undef-type":
+            return k, ["decl", r.choice(free_l), ["a", NEVER], ["i", "1"]]
+        if k == "cyclic-typedef":
+            a = r.choice(free_a)
+            return k, ["td", a, ["a", a]]
+        if k == "undef-class":
+            return k, ["decl", r.choice(free_l), ["o", NEVER], ["i", "1"]]
+        if k == "redeclare-typedef":
+            a = r.choice(sorted(aliases))
+            return k, ["td", a, aliases[a] if aliases[a] in ("i", "s") else ["o", aliases[a][1:]]]
+        if k == "decl-alias-mismatch":
+            a = r.choice(sorted(aliases))
+            return k, ["decl", r.choice(free_l), ["a", a], ["s", "1"] if aliases[a] != "s" else ["i", "1"]]
+        if k == "decl-obj-mismatch":
+            return k, ["decl", r.choice(free_l), "i", ["new", r.choice(classes)]]
         if k == "asg-mismatch":
             v = r.choice(sorted(locs))
-            return k, ["asg", v, ["s", "1"] if locs[v] == "i" else ["i", "1"]]
+            return k, ["asg", v, ["s", "1"] if locs[v] != "s" else ["i", "1"]]
         if k == "redeclare-local":
             v = r.choice(sorted(locs))
-            return k, ["decl", v, locs[v], ["i", "1"] if locs[v] == "i" else ["s", "1"]]
+            return k, ["decl", v, self.written(locs[v], {}), ["i", "1"] if locs[v] == "i" else ["s", "1"] if locs[v] == "s" else ["new", locs[v][1:]]]
         if k == "redeclare-const":
             return k, ["const", r.choice(consts), ["i", "4"]]
         m = r.choice(sorted(meths))
         t = "s" if meths[m] == "i" else "i"
         return k, ["def", m, t, ["s", "5"] if t == "s" else ["i", "5"]]
+
+
+PROBE_KIND = {"l": "local", "k": "const", "c": "method", "t": "typedef", "o": "class"}
 
 
 def gen_session(r, n_inputs):
@@ -275,45 +448,47 @@ def gen_session(r, n_inputs):
             # probe: use a name only a rejected input defined -> must be rejected too
             pending_probe -= 1
             kind, name = r.choice(g.ghost)
-            e = ["l", name] if kind == "l" else ["k", name] if kind == "k" else ["c", name, ["i", "1"]]
-            stmts = [["pr", e]]
-            if g.locals and r.chance(1, 2):
-                stmts.insert(0, ["pr", ["l", r.choice(sorted(g.locals))]])
+            stmts = g.probe(kind, name)
+            if g.locals and r.chance(1, 3):
+                iv = [v for v, t in sorted(g.locals.items()) if t in ("i", "s")]
+                if iv:
+                    stmts.insert(0, ["pr", ["l", r.choice(iv)]])
             inputs.append(["inp"] + stmts)
-            kinds.append("probe-" + {"l": "local", "k": "const", "c": "method"}[kind])
+            kinds.append("probe-" + PROBE_KIND[kind])
             must_rej.append(True)
             continue
         if c < 9:
-            stmts, m, k, l = g.valid_stmts(r.range(1, 4))
-            g.commit(m, k, l)
+            stmts, st = g.valid_stmts(r.range(1, 4))
+            g.commit(st)
             inputs.append(["inp"] + stmts)
             kinds.append("valid-redef" if any(s[0] == "def" for s in stmts) else "valid")
             must_rej.append(False)
         elif c < 14:
             # late failure: definitions first, then a fault, then maybe more
-            stmts, m, k, l = g.valid_stmts(r.range(1, 3))
-            fk, bad = g.fault(m, k, l)
+            stmts, st = g.valid_stmts(r.range(1, 3))
+            fk, bad = g.fault(st)
             pos = r.range(1 if len(stmts) else 0, len(stmts))
             stmts = stmts[:pos] + [bad] + stmts[pos:]
-            g.remember_ghosts(m, k, l)
+            g.remember_ghosts(st)
             inputs.append(["inp"] + stmts)
             kinds.append("late:" + fk)
             must_rej.append(True)
             pending_probe = 2
         elif c < 16:
-            stmts, m, k, l = g.valid_stmts(r.range(0, 3))
+            stmts, st = g.valid_stmts(r.range(0, 3))
             pos = r.range(0, len(stmts))
             stmts = stmts[:pos] + ["early"] + stmts[pos:]
-            g.remember_ghosts(m, k, l)
+            g.remember_ghosts(st)
             inputs.append(["inp"] + stmts)
             kinds.append("early")
             must_rej.append(True)
             pending_probe = 2
         elif c < 19:
             # runtime error after some effects; after the raising statement only prints
-            stmts, m, k, l = g.valid_stmts(r.range(1, 3), allow_defs=r.chance(1, 2))
+            stmts, st = g.valid_stmts(r.range(1, 3), allow_defs=r.chance(1, 2))
+            m, k, l, al, cl, dead = st
             g2 = Gen(r)
-            g2.meths, g2.consts, g2.locals = m, k, l
+            g2.meths, g2.consts, g2.locals, g2.dead = m, k, l, dead
             zero = ["i", "0"]
             how = r.below(3)
             if how == 0 or not l:
@@ -324,13 +499,13 @@ def gen_session(r, n_inputs):
             else:
                 bad = ["pr", ["add", ["i", "1"], ["mul", ["div", ["i", "3"], zero], ["i", "2"]]]]
             tail = [["pr", g2.int_expr(1)] for _ in range(r.below(2))]
-            g.commit(m, k, l)
+            g.commit(st)
             inputs.append(["inp"] + stmts + [bad] + tail)
             kinds.append("rterr")
             must_rej.append(False)
         else:
             # print everything defined so far (old names must keep their meaning)
-            stmts = [["pr", ["l", v]] for v in sorted(g.locals)] + [["pr", ["k", k]] for k in g.consts] + \
+            stmts = [["pr", ["l", v]] for v, t in sorted(g.locals.items()) if t in ("i", "s")] + [["pr", ["k", k]] for k in g.live()] + \
                     [["pr", ["c", m, ["i", "3"]]] for m in sorted(g.meths)]
             inputs.append(["inp"] + (stmts or [["pr", ["i", "1"]]]))
             kinds.append("print-all")
@@ -371,10 +546,10 @@ def batch_program(sess, sid, upto, model_incr):
         lines.append('println("#%d")' % j)
         stmts = inp[1:]
         if st == "err":
-            defs_after = [s for s in stmts[idx + 1:] if s != "early" and s[0] == "def"]
+            defs_after = [s for s in stmts[idx + 1:] if s != "early" and s[0] in ("def", "td", "cls")]
             for s in stmts[:idx]:
                 lines.append(elk_stmt(s, sid))
-            for s in defs_after:            # method definitions are hoisted: they took effect in the REPL too
+            for s in defs_after:            # method / class / named-type definitions are hoisted: they took effect in the REPL too
                 lines.append(elk_stmt(s, sid))
             lines.append("do\n  %s\ncatch Std::ZeroDivisionError() as e\n  println(\"!err\")\nend" % elk_stmt(stmts[idx], sid))
         else:
@@ -448,9 +623,10 @@ def regenerate(ctx):
         ctx.broke("tie: field extraction from types/checker/*.go failed (Checker struct / CheckSource / CheckProgram not found)", out[-2000:])
         return False
     vlib.write_if_changed(GEN_V, out)
-    rows = re.findall(r'mkField "(\w+)" (\w+) (\w+) (\w+) (\w+) (\w+)', out)
+    rows = re.findall(r'mkField "(\w+)" (\w+) (\w+) (\w+) (\w+) (\w+) (\w+)', out)
     ctx.extra["checker_fields"] = len(rows)
     ctx.extra["checker_fields_restored"] = [r[0] for r in rows if r[2] == "true"]
+    ctx.extra["checker_fields_reset_by_checksource"] = [r[0] for r in rows if r[3] == "true" and r[2] != "true"]
     return True
 
 
